@@ -523,7 +523,10 @@ def execute(env, attr, init, prog, created=False, source=None):
                 except Exception as ex: rerr = type(ex).__name__
                 array_reject = rerr == 'TypeError' and akind is not None
                 RESOLVE[0] = as_plain
-                if not array_reject:
+                # a dead owner (session over / deleted) refuses: with the check BEFORE the built-in method nothing changes
+                refused = bool(st.get('dead')) and rerr in ('DatabaseSessionIsOver', 'OperationWithDeletedObjectError') and FACTS.get('refusesFirst') \
+                    and isinstance(x, TrackedValue) and notifying(x, c)
+                if not array_reject and not refused:
                     try: do_call(y, c)
                     except Exception as ex: merr = type(ex).__name__
                     dead_exc = st.get('dead') and rerr in ('DatabaseSessionIsOver', 'OperationWithDeletedObjectError')
@@ -1100,14 +1103,14 @@ def classify_methods(base, sample, battery):
 
 def check_tables(ctx):
     facts = gen_tracked.introspect()
-    ctx.extra['tracked_table'] = {k: facts[k] for k in ('listOv', 'dictOv', 'arrOv', 'tupleMode', 'iterUnwrapped', 'notifyOnError', 'rebinds', 'assignRebinds', 'other')}
+    ctx.extra['tracked_table'] = {k: facts[k] for k in ('listOv', 'dictOv', 'arrOv', 'tupleMode', 'iterUnwrapped', 'notifyOnError', 'refusesFirst', 'rebinds', 'assignRebinds', 'other')}
     if facts['errors']:
         ctx.divergence('probing the Tracked classes raised', facts['errors'])
     if not ctx.driver.ok:
         ctx.note('driver unavailable: table checks skipped'); return facts, None
     t = ctx.driver('C28', [{'op': 'tables'}])[0]
     # (1) the table compiled into the Lean build is the table of the classes as they are now
-    for k in ('listOv', 'dictOv', 'arrOv', 'listNotify', 'dictNotify', 'arrNotify', 'tupleMode', 'iterUnwrapped', 'notifyOnError', 'rebinds', 'assignRebinds'):
+    for k in ('listOv', 'dictOv', 'arrOv', 'listNotify', 'dictNotify', 'arrNotify', 'tupleMode', 'iterUnwrapped', 'notifyOnError', 'refusesFirst', 'rebinds', 'assignRebinds'):
         ctx.case(['table', k], kind='table:fresh-vs-compiled')
         if facts[k] != t[k]:
             ctx.divergence('Gen/TrackedTable.lean (compiled) differs from the classes as they are now: %s' % k, k, model=t[k], impl=facts[k])
